@@ -295,6 +295,16 @@ func c20Run(r *vlib.Run, c *c20Case, dir string) {
 		}
 		return
 	}
+	if never {
+		// a task never reported ready: readiness must not be announced, not even
+		// while or after the server shuts down
+		time.Sleep(30 * time.Millisecond)
+		if lg.has("notify READY=1") {
+			r.Violation(c.ID, "ready-too-early", "READY=1 was announced during shutdown although one task never reported ready", det())
+			return
+		}
+		r.Count("never_ready_scenarios_checked_after_shutdown", 1)
+	}
 	ev := lg.snapshot()
 	ix := func(prefix string) int {
 		for i, e := range ev {
